@@ -8,6 +8,7 @@ from vp.values import _other
 from vp.symex import PyRaise, Unsupported
 from vp import spec as S
 from vp import fsmodel as FS
+from .util import comp_prefix
 from .schema import Entry, FileEntry, PathEntry
 from .verify import file_facts, all_digests_match, OptReal, OptInt, opt_term, ENXIOISH
 
@@ -813,3 +814,35 @@ def _(c):
     c.only_raises(*GEMATO_ERRORS)
     c.site('checks-the-file-under-the-root-with-its-entry-and-the-manifest-device', 'verify_path', _checks_this_path,
            props=['C01', 'C16'])
+
+
+# --------------------------------------------------------------------------
+# which loaded Manifests apply to a path (C01, C02, C10): those whose directory is an ancestor-or-self of the path by whole
+# components, and with recursive=True also those at or below the path
+
+OptMF_ = OptMF
+
+
+def applies(s, key, d, path, recursive):
+    return z3.Or(comp_prefix(s, path, d), z3.And(recursive, comp_prefix(s, d, path)))
+
+
+@contract('gemato/recursiveloader.py', 'ManifestRecursiveLoader._iter_unordered_manifests_for_path',
+          props=['C01', 'C02', 'C10', 'C18'])
+def _(c):
+    c.params(self=RL, path=Str, recursive=Bool)
+    c.returns(Any)
+    c.only_raises()
+
+    def y_applies(s, v):
+        return z3.And(applies(s, v[0], v[1], s.path, s.recursive),
+                      z3.Select(s.self.loaded_manifests, v[0]) == OptMF_.some(v[2].ref),
+                      v[0] == s.cur.k, v[1] == s.cur.d)
+    c.yield_ensures('only-manifests-whose-directory-is-above-the-path-or-below-it-when-recursive', y_applies)
+
+    c.loop(1, header='for (k, v) in self.loaded_manifests.items()', vars={'d': None},
+           ghosts={'ny': Int, 'last': Bool}, ghost_init=lambda s: {'ny': z3.IntVal(0), 'last': z3.BoolVal(False)},
+           ghost_update=lambda s: {'ny': s.ny + z3.If(applies(s, s.cur.k, s.cur.d, s.path, s.recursive), 1, 0),
+                                   'last': z3.BoolVal(len(getattr(s._it.ctx, 'yield_log', [])) == 1)
+                                   == applies(s, s.cur.k, s.cur.d, s.path, s.recursive)},
+           inv=[('every-applicable-manifest-so-far-was-yielded', lambda s: z3.Or(s.i == 0, s.last))])
